@@ -282,7 +282,10 @@ pub fn limit_cases() -> Vec<Vec<u8>> {
     out.push(g(String::new()));
     // per-position mutations of a valid GUID over {0 9 a f A F g -}
     for pos in 0..32 {
-        for c in ['0', '9', 'a', 'f', 'A', 'F', 'g', '-', ' ', 'é'] {
+        // (every printable ASCII character: a lenient number parser lets '+', '_' or spaces through)
+        let mut alphabet: Vec<char> = (0x20u8..0x7f).map(|b| b as char).collect();
+        alphabet.push('é');
+        for c in alphabet {
             let mut chars: Vec<char> = hex32.chars().collect();
             chars[pos] = c;
             out.push(g(chars.into_iter().collect()));
